@@ -37,6 +37,55 @@ ENTRIES = [
     V("S-v-gae-static-split-same", "C03", (RB, "        next_non_terminals = 1.0 - self.dones.astype(float)", "        if self.dones.ndim == 1:\n            next_non_terminals = 1.0 - self.dones.astype(float)\n        else:\n            next_non_terminals = 1.0 - self.dones.astype(float)")),
     M("S-gae-static-split-wrong-branch", "C03", "C03", (RB, "        next_non_terminals = 1.0 - self.dones.astype(float)", "        if self.dones.ndim == 1:\n            next_non_terminals = 1.0 - self.dones.astype(float)\n        else:\n            next_non_terminals = jnp.ones_like(self.dones, dtype=float)")),
     M("S-dqn-loss-static-split", "C07", "C07", (DQN, "        not_terminal = (~batch.dones | batch.timeouts).astype(float)", "        if gamma == 1.0:\n            not_terminal = jnp.ones_like(batch.rewards)\n        else:\n            not_terminal = (~batch.dones | batch.timeouts).astype(float)")),
+    # ---------------------------------------------------------------- structural restylings met in the second behaviour-preserving round, and broken twins
+    V("R2-v-ppo-flatten-hoisted", "C09", (PPO, "    def train(\n", "    def _epoch_on_flat(self, policy, opt_state, flat_buffer, *, key):\n        indices = flat_buffer.batch_indices(self.batch_size, key=key)\n\n        def batch_scan(carry, batch_indices):\n            policy, opt_state = carry\n            batch = flat_buffer.gather(batch_indices)\n            policy, opt_state, stats = self.train_batch(policy, opt_state, batch)\n            return (policy, opt_state), stats\n\n        (policy, opt_state), stats = filter_scan(batch_scan, (policy, opt_state), indices)\n        stats = jax.tree.map(jnp.mean, stats)\n        return policy, opt_state, stats\n\n    def train(\n"), (PPO, "            policy, opt_state, stats = self.train_epoch(\n                policy, opt_state, buffer, key=key\n            )\n            return (policy, opt_state), stats\n\n        (policy, opt_state), stats = filter_scan(\n            epoch_scan, (policy, opt_state), jr.split(key, self.num_epochs)\n        )", "            policy, opt_state, stats = self._epoch_on_flat(\n                policy, opt_state, flat_buffer, key=key\n            )\n            return (policy, opt_state), stats\n\n        flat_buffer = buffer.flatten_axes()\n        outer_key = key\n        (policy, opt_state), stats = filter_scan(\n            epoch_scan, (policy, opt_state), jr.split(key, self.num_epochs)\n        )")),
+    M("R2-ppo-flatten-hoisted-same-key-every-epoch", "C09", "C09.4", (PPO, "    def train(\n", "    def _epoch_on_flat(self, policy, opt_state, flat_buffer, *, key):\n        indices = flat_buffer.batch_indices(self.batch_size, key=key)\n\n        def batch_scan(carry, batch_indices):\n            policy, opt_state = carry\n            batch = flat_buffer.gather(batch_indices)\n            policy, opt_state, stats = self.train_batch(policy, opt_state, batch)\n            return (policy, opt_state), stats\n\n        (policy, opt_state), stats = filter_scan(batch_scan, (policy, opt_state), indices)\n        stats = jax.tree.map(jnp.mean, stats)\n        return policy, opt_state, stats\n\n    def train(\n"), (PPO, "            policy, opt_state, stats = self.train_epoch(\n                policy, opt_state, buffer, key=key\n            )\n            return (policy, opt_state), stats\n\n        (policy, opt_state), stats = filter_scan(\n            epoch_scan, (policy, opt_state), jr.split(key, self.num_epochs)\n        )", "            policy, opt_state, stats = self._epoch_on_flat(\n                policy, opt_state, flat_buffer, key=outer_key\n            )\n            return (policy, opt_state), stats\n\n        flat_buffer = buffer.flatten_axes()\n        outer_key = key\n        (policy, opt_state), stats = filter_scan(\n            epoch_scan, (policy, opt_state), jr.split(key, self.num_epochs)\n        )")),
+    V("R2-v-batch-indices-shuffle-arange", "C09", ("lerax/buffer/base_buffer.py", "        indices = jnp.arange(total) if key is None else jr.permutation(key, total)", "        indices = jnp.arange(total)\n        if key is not None:\n            indices = jr.permutation(key, indices)")),
+    M("R2-batch-indices-shuffle-twice", "C09", "C09.1", ("lerax/buffer/base_buffer.py", "        indices = jnp.arange(total) if key is None else jr.permutation(key, total)", "        indices = jnp.arange(total)\n        if key is not None:\n            indices = jr.permutation(key, jr.permutation(key, indices) % 2)")),
+    M("R2-batch-indices-inverted-key-test", "C09", "C09.1", ("lerax/buffer/base_buffer.py", "        indices = jnp.arange(total) if key is None else jr.permutation(key, total)", "        indices = jnp.arange(total)\n        if key is None:\n            indices = jr.permutation(jr.key(0), indices)")),
+    V("R2-v-dqn-row-index-from-best", "C07", (DQN, "        next_q_selected = target_next_q[jnp.arange(actions.shape[0]), best_actions]", "        next_q_selected = target_next_q[jnp.arange(best_actions.shape[0]), best_actions]")),
+    M("R2-dqn-row-index-from-action-axis", "C07", "C07", (DQN, "        next_q_selected = target_next_q[jnp.arange(actions.shape[0]), best_actions]", "        next_q_selected = target_next_q[jnp.arange(target_next_q.shape[1]), best_actions]")),
+    V("R2-v-resolve-axes-loop", ["C06", "C09"], ("lerax/buffer/base_buffer.py", "        axes = tuple(a + ndim if a < 0 else a for a in axes)", "        normalized = []\n        for a in axes:\n            normalized.append(a + ndim if a < 0 else a)\n        axes = tuple(normalized)")),
+    M("R2-resolve-axes-loop-wrong-sign", ["C06", "C09"], ["C06", "C09"], ("lerax/buffer/base_buffer.py", "        axes = tuple(a + ndim if a < 0 else a for a in axes)", "        normalized = []\n        for a in axes:\n            normalized.append(a - ndim if a < 0 else a)\n        axes = tuple(normalized)")),
+    M("R2-resolve-axes-loop-drops-append", ["C06", "C09"], ["C06", "C09"], ("lerax/buffer/base_buffer.py", "        axes = tuple(a + ndim if a < 0 else a for a in axes)", "        normalized = []\n        for a in axes:\n            normalized = [a + ndim if a < 0 else a]\n        axes = tuple(normalized)")),
+    V("R2-v-resolve-axes-match", ["C06", "C09"], ("lerax/buffer/base_buffer.py", "        if batch_axes is None:\n            axes = tuple(range(ndim))\n        elif isinstance(batch_axes, int):\n            axes = (batch_axes,)\n        else:\n            axes = tuple(batch_axes)", "        match batch_axes:\n            case None:\n                axes = tuple(range(ndim))\n            case int():\n                axes = (batch_axes,)\n            case _:\n                axes = tuple(batch_axes)")),
+    M("R2-resolve-axes-match-int-as-sequence", ["C06", "C09"], ["C06", "C09"], ("lerax/buffer/base_buffer.py", "        if batch_axes is None:\n            axes = tuple(range(ndim))\n        elif isinstance(batch_axes, int):\n            axes = (batch_axes,)\n        else:\n            axes = tuple(batch_axes)", "        match batch_axes:\n            case None:\n                axes = tuple(range(ndim))\n            case int():\n                axes = (batch_axes, batch_axes)\n            case _:\n                axes = tuple(batch_axes)"), error_ok=True),
+    # ---------------------------------------------------------------- gaps found by the operator sweep (selftest/sweep.py)
+    M("W-box-ctor-low-from-high", "C14", "C14.10", ("lerax/space/box.py", "        self.low = jnp.broadcast_to(low, shape)", "        self.low = jnp.broadcast_to(high, shape)")),
+    M("W-box-ctor-bounds-crossed-at-conversion", "C14", "C14.10", ("lerax/space/box.py", "        low = jnp.asarray(low, dtype=float)\n        high = jnp.asarray(high, dtype=float)", "        low = jnp.asarray(high, dtype=float)\n        high = jnp.asarray(low, dtype=float)")),
+    M("W-box-ctor-broadcast-crossed", "C14", "C14.10", ("lerax/space/box.py", "            low, high = jnp.broadcast_arrays(low, high)", "            high, low = jnp.broadcast_arrays(low, high)")),
+    V("W-v-box-ctor-broadcast-reordered", "C14", ("lerax/space/box.py", "            low, high = jnp.broadcast_arrays(low, high)", "            high, low = jnp.broadcast_arrays(high, low)")),
+    M("W-box-canonical-twice-the-sum", "C14", "C14.7", ("lerax/space/box.py", "(self.low + self.high) / 2", "(self.low + self.high) * 2")),
+    M("W-box-canonical-third", "C14", "C14.7", ("lerax/space/box.py", "(self.low + self.high) / 2", "(self.low + self.high) / 3")),
+    M("W-box-canonical-unbounded-inf", "C14", "C14.7", ("lerax/space/box.py", "jnp.where(bounded_above, self.high, 0.0)", "jnp.where(bounded_above, self.high, jnp.inf)")),
+    V("W-v-box-canonical-halves", "C14", ("lerax/space/box.py", "(self.low + self.high) / 2", "0.5 * self.low + 0.5 * self.high")),
+    V("W-v-box-canonical-unbounded-one", "C14", ("lerax/space/box.py", "jnp.where(bounded_above, self.high, 0.0)", "jnp.where(bounded_above, self.high, 1.0)")),
+    M("W-box-eq-either-bound", "C14", "C14.4", ("lerax/space/box.py", "bool(jnp.array_equal(self.low, other.low)) and bool(", "bool(jnp.array_equal(self.low, other.low)) or bool(")),
+    V("W-v-box-eq-early-return", "C14", ("lerax/space/box.py", "        return bool(jnp.array_equal(self.low, other.low)) and bool(\n            jnp.array_equal(self.high, other.high)\n        )", "        if not bool(jnp.array_equal(self.low, other.low)):\n            return False\n        return bool(jnp.array_equal(self.high, other.high))")),
+    M("W-callbacklist-states-reversed", "C19", "C19.6", ("lerax/callback/list.py", "            eqx.tree_at(lambda c: c.state, ctx, state) for state in ctx.state.states", "            eqx.tree_at(lambda c: c.state, ctx, state) for state in reversed(ctx.state.states)")),
+    M("W-callbacklist-on-step-shared-context", "C19", "C19.6", ("lerax/callback/list.py", "        new_states = [\n            callback.on_step(ctx, key=key)\n            for callback, ctx, key in zip(\n                self.callbacks, contexts, jr.split(key, len(self.callbacks))\n            )\n        ]\n        return CallbackListStepState(states=new_states)", "        new_states = [\n            callback.on_step(ctx, key=key)\n            for callback, key in zip(\n                self.callbacks, jr.split(key, len(self.callbacks))\n            )\n        ]\n        return CallbackListStepState(states=new_states)")),
+    M("W-callbacklist-on-step-same-key", "C19", "C19.6", ("lerax/callback/list.py", "        new_states = [\n            callback.on_step(ctx, key=key)\n            for callback, ctx, key in zip(\n                self.callbacks, contexts, jr.split(key, len(self.callbacks))\n            )\n        ]\n        return CallbackListStepState(states=new_states)", "        new_states = [\n            callback.on_step(ctx, key=key)\n            for callback, ctx in zip(self.callbacks, contexts)\n        ]\n        return CallbackListStepState(states=new_states)")),
+    V("W-v-callbacklist-on-step-fused", "C19", ("lerax/callback/list.py", "        new_states = [\n            callback.on_step(ctx, key=key)\n            for callback, ctx, key in zip(\n                self.callbacks, contexts, jr.split(key, len(self.callbacks))\n            )\n        ]\n        return CallbackListStepState(states=new_states)", "        new_states = [\n            callback.on_step(eqx.tree_at(lambda c: c.state, ctx, state), key=key)\n            for callback, state, key in zip(\n                self.callbacks, ctx.state.states, jr.split(key, len(self.callbacks))\n            )\n        ]\n        return CallbackListStepState(states=new_states)")),
+    M("W-classic-step-backwards-in-time", "C17", "C17.17", ("lerax/env/classic_control/base_classic_control.py", "            t1=state.t + self.dt,", "            t1=state.t - self.dt,")),
+    M("W-classic-step-from-clipped-state", "C17", "C17.17", ("lerax/env/classic_control/base_classic_control.py", "            y0=state.y,", "            y0=self.clip(state.y),")),
+    M("W-classic-step-unclipped", "C17", "C17.17", ("lerax/env/classic_control/base_classic_control.py", "        y = self.clip(sol.ys[0])", "        y = sol.ys[0]")),
+    M("W-classic-step-clock-frozen", "C17", "C17.17", ("lerax/env/classic_control/base_classic_control.py", "        t = state.t + self.dt\n", "        t = state.t\n")),
+    M("W-classic-step-ignores-action", "C17", "C17.17", ("lerax/env/classic_control/base_classic_control.py", "            return self.dynamics(t, y, action)", "            return self.dynamics(t, y, args * 0)")),
+    V("W-v-classic-step-shared-t1", "C17", ("lerax/env/classic_control/base_classic_control.py", "        saveat = diffrax.SaveAt(t1=True)", "        t_next = state.t + self.dt\n        saveat = diffrax.SaveAt(t1=True)"), ("lerax/env/classic_control/base_classic_control.py", "            t1=state.t + self.dt,", "            t1=t_next,"), ("lerax/env/classic_control/base_classic_control.py", "        t = state.t + self.dt\n", "        t = t_next\n")),
+    M("W-cartpole-force-sign", "C17", "C17.6", ("lerax/env/classic_control/cartpole.py", "force = (action * 2 - 1) * self.force_mag", "force = (action * 2 + 1) * self.force_mag")),
+    M("W-acrobot-theta1-dd-sign", "C17", "C17.6", ("lerax/env/classic_control/acrobot.py", "theta1_dd = -(d2 * theta2_dd + phi1) / d1", "theta1_dd = (d2 * theta2_dd + phi1) / d1")),
+    M("W-box-eq-allclose", "C14", "C14.4", ("lerax/space/box.py", "bool(jnp.array_equal(self.low, other.low)) and bool(\n            jnp.array_equal(self.high, other.high)", "bool(jnp.allclose(self.low, other.low)) and bool(\n            jnp.allclose(self.high, other.high)")),
+    M("W-ant-action-space-inverted", "C02", "C02.6", ("lerax/env/mujoco/ant.py", "self.action_space = Box(low=low, high=high)", "self.action_space = Box(low=high, high=low)")),
+    M("W-swimmer-action-columns-crossed", "C02", "C02.6", ("lerax/env/mujoco/swimmer.py", "low, high = bounds[:, 0], bounds[:, 1]", "low, high = bounds[:, 1], bounds[:, 0]")),
+    M("W-reacher-observation-space-inverted", "C02", "C02.6", ("lerax/env/mujoco/reacher.py", "self.observation_space = Box(low=-high_obs, high=high_obs)", "self.observation_space = Box(low=high_obs, high=-high_obs)")),
+    M("W-g1-action-space-inverted", "C02", "C02.6", ("lerax/env/unitree/g1/base_g1.py", "self.action_space = Box(low=-1.0, high=1.0, shape=(NUM_ACTUATED_DOFS,))", "self.action_space = Box(low=1.0, high=-1.0, shape=(NUM_ACTUATED_DOFS,))")),
+    V("W-v-hopper-observation-space-neg-first", "C02", ("lerax/env/mujoco/hopper.py", "        high_obs = jnp.full((obs_size,), jnp.inf, dtype=jnp.float32)\n        self.observation_space = Box(low=-high_obs, high=high_obs)", "        low_obs = jnp.full((obs_size,), -jnp.inf, dtype=jnp.float32)\n        self.observation_space = Box(low=low_obs, high=-low_obs)")),
+    M("W-gymnax-reward-from-pre-state", "C13", "C13.9", ("lerax/compatibility/gymnax.py", "        return next_state.reward", "        return state.reward")),
+    M("W-gymnax-box-bounds-crossed", "C13", "C13.9", ("lerax/compatibility/gymnax.py", "        return Box(low=space.low, high=space.high, shape=space.shape)", "        return Box(low=space.high, high=space.low, shape=space.shape)")),
+    M("W-gymnax-time-counts-down", "C13", "C13.9", ("lerax/compatibility/gymnax.py", "                time=state.time + 1,", "                time=state.time - 1,")),
+    M("W-gymnax-done-ignores-truncation", "C13", "C13.9", ("lerax/compatibility/gymnax.py", "        done = termination | truncation", "        done = termination")),
+    M("W-gymnax-terminal-from-successor", "C13", "C13.9", ("lerax/compatibility/gymnax.py", "        return state.terminal", "        return jnp.array(False, dtype=bool)")),
+    V("W-v-gymnax-step-unpacked-by-index", "C13", ("lerax/compatibility/gymnax.py", "        observation, env_state, reward, done, _ = self.env.step_env(\n            key, state.env_state, action, self.params\n        )", "        out = self.env.step_env(key, state.env_state, action, self.params)\n        observation, env_state, reward, done = out[0], out[1], out[2], out[3]")),
     # ---------------------------------------------------------------- restylings met in the behaviour-preserving round, and their broken twins
     V("R-v-discrete-guards-merged", "C14", ("lerax/space/discrete.py", "        if x is None:\n            return jnp.array(False)\n\n        if x.ndim != 0:\n            return jnp.array(False)\n        x = x.squeeze()", "        if x is None or x.ndim != 0:\n            return jnp.array(False)\n        x = x.squeeze()")),
     M("R-discrete-guards-merged-and", "C14", "C14.3", ("lerax/space/discrete.py", "        if x is None:\n            return jnp.array(False)\n\n        if x.ndim != 0:\n            return jnp.array(False)\n        x = x.squeeze()", "        if x is None and x.ndim != 0:\n            return jnp.array(False)\n        x = x.squeeze()")),
